@@ -629,6 +629,9 @@ func init() {
 		st.assume(inRange(r, types.Typ[types.Uint64]))
 		return []Val{Sc{r}, Sc{e}}
 	}
+	externs["github.com/ava-labs/avalanchego/utils.Zero"] = func(f *Frame, call *ast.CallExpr, recv Val, args []Val, st *State) []Val {
+		return []Val{f.in.zeroVal(resultType0(f, call), f)}
+	}
 	externs["errors.Join"] = func(f *Frame, call *ast.CallExpr, recv Val, args []Val, st *State) []Val {
 		in := f.in
 		sl := args[0].(SliceV)
